@@ -10,8 +10,10 @@ What a contract can say here: the backend's svd / eigh / qr are dependencies (LA
   the method on matrix*mask + (U diag(S) V)*(1-mask).
 * svd_flip (E1-dense, z3, enumerated small shapes): the product U diag(S) V is unchanged, the deciding entry (largest magnitude of each column of U / row of
   V) is non-negative afterwards, for all values of non-degenerate factors.
-* Accuracy against numpy.linalg.svd for every method, shape class and n_eigenvecs, symeig / randomized orthonormality, NNDSVD non-negativity: bounded native
-  stand-in - labelled bounded, never counted as proved.
+* make_svd_non_negative (E1-dense, z3, enumerated small shapes): both factors entrywise non-negative and every division defined, for any triplet with
+  non-negative singular values and non-zero vectors (data-dependent branches are forked); the NNDSVDa fill on the one-component instances.
+* Accuracy against numpy.linalg.svd for every method, shape class and n_eigenvecs, symeig / randomized orthonormality, NNDSVD approximation quality: bounded
+  native stand-in - labelled bounded, never counted as proved.
 """
 import itertools
 import warnings
@@ -34,10 +36,11 @@ TRUSTED_BASE = [
     "numpy primitive contracts; CPython",
 ]
 ASSUMPTIONS = [
-    "symeig_svd, randomized_svd and make_svd_non_negative bodies (eigh / qr / clipped square roots, data-dependent NNDSVD branches) are covered only by the bounded stand-in",
+    "symeig_svd and randomized_svd bodies (eigh / qr / clipped square roots) are covered only by the bounded stand-in",
     "svd_flip at enumerated shapes up to 3x2 / 2x3 with 1-2 components, factors without a zero deciding column (true of singular vectors)",
+    "make_svd_non_negative at enumerated shapes up to 3x2 / 2x3 (3x3 thorough) with 1-2 (3) components; singular vectors enter as 'not zero', singular values as non-negative; the NNDSVDa fill only with one component",
 ]
-QUANTIFICATION = "forall matrix sizes, n_eigenvecs (None, in range, past the sizes) and entries for the wrapper logic; forall entries at the enumerated shapes for svd_flip; enumerated: method, options"
+QUANTIFICATION = "forall matrix sizes, n_eigenvecs (None, in range, past the sizes) and entries for the wrapper logic; forall entries at the enumerated shapes for svd_flip and make_svd_non_negative; enumerated: method, options"
 EXPLANATION = "Wrapper logic against the backend's SVD contract; sign resolution by z3 on real numpy object arrays; accuracy only bounded."
 
 
@@ -256,6 +259,32 @@ def obligations(tier):
                 return [D.SB(c.b) if hasattr(c, "b") else c for c in out]
             obs.append(DOb(PID, f"{PID}/tenalg.svd:svd_flip/product unchanged ∧ deciding entry non-negative[U {a}x{r_}, V {r_}x{b}, u_based={ub}]", "tensorly.tenalg.svd:svd_flip", dict(U=(a, r_), V=(r_, b), s=(r_,)), call, claims,
                            pre=pre, instance=dict(U=f"{a}x{r_}", V=f"{r_}x{b}", u_based_decision=ub), clause="sign resolution keeps the product and makes the deciding entry non-negative", check_domain=False))
+
+    # ====================================================================== make_svd_non_negative (E1-dense): with the non-negative option both factors are entrywise
+    # non-negative and every value is defined (no 0/0), for ANY triplet with non-negative singular values - signed data, single-signed or zero vectors included
+    nn_shapes = [(2, 2, 1), (3, 2, 1), (2, 2, 2), (3, 2, 2), (2, 3, 2)] + ([(3, 3, 2), (2, 2, 3)] if tier == "thorough" else [])   # (rows, columns, components)
+    for (a, b, r_) in nn_shapes:
+        for variant in ("nndsvd", "nndsvda", True):
+            if variant != "nndsvd" and r_ > 1:
+                # the NNDSVDa fill `where(W < eps, |mean|, W)` compares entry by entry (one fork each, over non-linear terms): it is discharged on the
+                # one-component instances, where it already meets every non-negative W; the loop over further components is the code proved under 'nndsvd'
+                continue
+            def call(I, variant=variant):
+                return sv.make_svd_non_negative(I["M"], I["U"], I["s"], I["V"], variant)
+            def claims(I, out, a=a, b=b, r_=r_):
+                W, H = out
+                return [("W is entrywise non-negative", d_and(*[d_le(0, W[i, q]) for i in range(a) for q in range(r_)])),
+                        ("H is entrywise non-negative", d_and(*[d_le(0, H[q, j]) for q in range(r_) for j in range(b)]))]
+            def pre(I, a=a, b=b, r_=r_):
+                # contract of the SVD methods: singular values are non-negative; singular vectors have unit norm - used here only as 'are not zero'
+                out = [D.SB((I["s"][q] >= 0).b) for q in range(r_)]
+                for q in range(r_):
+                    for c in (d_or(*[d_lt(0, d_abs(I["U"][i, q])) for i in range(a)]), d_or(*[d_lt(0, d_abs(I["V"][q, j])) for j in range(b)])):
+                        out.append(D.SB(c.b) if hasattr(c, "b") else c)
+                return out
+            obs.append(DOb(PID, f"{PID}/tenalg.svd:make_svd_non_negative/both factors entrywise non-negative ∧ defined[{a}x{b}, {r_} components, variant={variant}]", "tensorly.tenalg.svd:make_svd_non_negative",
+                           dict(M=(a, b), U=(a, r_), V=(r_, b), s=(r_,)), call, claims, pre=pre, instance=dict(shape=f"{a}x{b}", components=r_, variant=str(variant)),
+                           clause="with the non-negative option both factors are entrywise non-negative (and finite: every division is defined)", check_domain=True))
 
     # ====================================================================== bounded stand-in: accuracy of every method against numpy.linalg.svd
     def bounded():
